@@ -22,6 +22,9 @@ type TaintSpec struct {
 	Passthrough func(call *ssa.CallCommon) []int
 	// FieldSource: loads of this field ("pkg.Type.field") are tainted.
 	FieldSource func(key string) bool
+	// CleansAll: when fact f holds on an edge, every value produced so far is
+	// clean (e.g. "ctx.Err() == nil": no earlier error was caused by the context).
+	CleansAll func(f Fact) bool
 }
 
 // Taint is the result of the analysis over a set of functions.
@@ -164,9 +167,6 @@ func (r *taintRun) val(v ssa.Value, st map[ssa.Value]bool) bool {
 		return b
 	}
 	t := r.t
-	if t.Spec.IsSource != nil && t.Spec.IsSource(v) {
-		return true
-	}
 	switch x := v.(type) {
 	case *ssa.Parameter:
 		return r.params[x]
@@ -308,6 +308,10 @@ func freshLoadCell(v ssa.Value, b *ssa.BasicBlock) ssa.Value {
 
 func (r *taintRun) step(in ssa.Instruction, st map[ssa.Value]bool) {
 	t := r.t
+	// a source taints the value it defines, at the definition
+	if v, ok := in.(ssa.Value); ok && t.Spec.IsSource != nil && t.Spec.IsSource(v) {
+		st[v] = true
+	}
 	switch x := in.(type) {
 	case *ssa.Store:
 		tv := r.val(x.Val, st)
@@ -486,6 +490,13 @@ func (t *Taint) run(fn *ssa.Function, params map[*ssa.Parameter]bool, record boo
 					o[v] = false
 					if c := freshLoadCell(v, b); c != nil {
 						o[c] = false
+					}
+				}
+				if t.Spec.CleansAll != nil && t.Spec.CleansAll(f) {
+					for k, tv := range o {
+						if tv {
+							o[k] = false
+						}
 					}
 				}
 			}
